@@ -490,7 +490,6 @@ Section Collision.
 
   (* one round deletes k1 and creates k2 (no two entries live at ONE round share a leaf): the
      result depends on the order in which the two compacted deltas are walked (Go map order) *)
-  Hypothesis Hdb : True.
   Lemma collision_order_dependent (m0 : mstate) (s0 : sstate) :
     Rel m0 s0 -> (forall y, In y (s_cur s0) <-> y = leaf k2 v2) ->
     exists ma a mb b,
